@@ -131,6 +131,13 @@ def run(ctx):
             ok_, why_ = fn_(eng, q, "gpg")
             ctx.ob("R2", "entry-grammar-exact|%s" % q, fn_site(eng, eng.walk(q)).loc(), "%s %s" % (q, "decides exactly the OpenPGP entry grammar" if ok_ else "does not decide exactly the OpenPGP entry grammar (valid entries are turned away or malformed ones let through): " + why_), ok_)
 
+    # ---- R1 (cont.) the data that is hashed is the caller's, unchanged: the verifier writes none of
+    # its arguments (a bytearray payload assembled with += would grow with every call)
+    from sa.effects import Effects
+
+    pw = Effects(eng).param_writes(sm.fi)
+    ctx.ob("R1", "arguments-unchanged", site.loc(), "verify_gpg_signature %s" % ("writes none of its arguments (own stores and all resolved callees)" if not pw else "modifies its argument: " + "; ".join("%s of %s at %s" % (k, pn, s.loc()) for pn, _st, k, s, _via in sorted(pw, key=lambda x: (x[0], str(x[3]))))[:300]), not pw)
+
     # ---- R3 module chains
     n = 0
     for p in sm.paths:
